@@ -78,7 +78,7 @@ def tlc_phase(ctx, only):
         if r["ok"] or r["violated"] != expect:
             raise vlib.Broken("expected-violation run %s/%s: expected %s, got %s — the model changed" % (module, cfg, expect, r["violated"]))
         if prim == "throttler":
-            print("OBSERVATION property=G06 (TLC, design level, not reproduced on the code, not a verdict): %s" % label, flush=True)
+            print("OBSERVATION property=G06 (TLC, design level, not a verdict): %s" % label, flush=True)
 
 
 # ------------------------------------------------------------------------------------ helpers
@@ -192,6 +192,11 @@ def throttler(ctx, binary):
     res = ctx.run_engine(binary, "TestThrottlerConcurrent",
                          {"out": tf, "trace_rounds": 30 if thorough else 10, "monitor_rounds": 200 if thorough else 40}, timeout=1500)
     absorb(ctx, res, "TestThrottlerConcurrent")
+    neg, reads = res["stats"].get("throttler_queue_len_negative_readings", 0), res["stats"].get("throttler_queue_len_reads", 0)
+    if neg:
+        # racy by nature (a few per million reads): reported, never a verdict
+        print("OBSERVATION property=G06 (seen on the real code in this run, not a verdict): throttler.QueueLen() returned a negative "
+              "number %d times in %d reads (currentRequests and len(sem) are read separately)" % (neg, reads), flush=True)
     validate_trace(ctx, "ThrottlerTrace.tla", "ThrottlerTrace.cfg", tf, res["stats"]["rounds"], "throttler", "TestThrottlerConcurrent")
 
 
